@@ -81,11 +81,16 @@ func RunProvider(decoder string, file []byte, k int, passes, limit uint) string 
 // RunProviderOpt: as RunProvider, optionally with Preload (the whole file is decoded first,
 // then replayed from memory).
 func RunProviderOpt(decoder string, file []byte, k int, passes, limit uint, preload bool) string {
+	return RunProviderCfg(decoder, file, k, passes, limit, preload, nil)
+}
+
+// RunProviderCfg: as RunProviderOpt, with the provider's configured `headers` list.
+func RunProviderCfg(decoder string, file []byte, k int, passes, limit uint, preload bool, headers []string) string {
 	fs := afero.NewMemMapFs()
 	if err := afero.WriteFile(fs, "ammo", file, 0o644); err != nil {
 		return "harness-error"
 	}
-	conf := config.Config{Decoder: config.DecoderType(decoder), File: "ammo", Passes: passes, Limit: limit, Preload: preload}
+	conf := config.Config{Decoder: config.DecoderType(decoder), File: "ammo", Passes: passes, Limit: limit, Preload: preload, Headers: headers}
 	var out []string
 	var prov core.Provider
 	newRes := make(chan string, 1)
